@@ -62,6 +62,10 @@ def run(e: Engine, rep: Report):
     e3(e, rep)
     e4(e, rep)
     e5(e, rep)
+    rep.rule('E7', '_encode_parts changes a part only through the encoder '
+             'it was given and by removing its Content-Transfer-Encoding '
+             'header (no set_payload / header rewriting of its own)')
+    e7(e, rep)
     rep.floor('E2', 4, 'body provenance obligations')
 
 
@@ -427,3 +431,55 @@ def e5(e: Engine, rep: Report):
                   loc=h.loc(), reason='handler ends in raise or '
                   '_encode_parts', witness=dataflow.render_path(pth, 8)
                   if pth else None)
+
+
+def e7(e: Engine, rep: Report):
+    """The 7-bit conversion changes a MIME part only through the encoder it
+    was given (plus dropping the part's old Content-Transfer-Encoding
+    header, which the encoder sets anew).  Rewriting the payload in
+    Envelope itself (set_payload with a text derived from get_payload())
+    puts the charset-decoded text where the raw payload was: the encoders
+    then produce ASCII that no longer decodes to the original text."""
+    ctx = e.method_ctx(ENV, '_encode_parts')
+    fn = ctx.func.node
+    where = ctx.func.qname
+    rep.functions.add(where)
+    loops = [x for x in walk_own(fn) if isinstance(x, ast.For) and
+             'walk' in ast.unparse(x.iter)]
+    if not loops:
+        rep.error('anchor vanished: the loop over msg.walk() in '
+                  '_encode_parts')
+        return
+    REWRITERS = {'set_payload', 'set_charset', 'set_param', 'replace_header',
+                 'add_header', 'set_type', 'attach', 'set_content',
+                 'set_default_type', 'del_param', 'set_boundary'}
+    for lp in loops:
+        var = lp.target.id if isinstance(lp.target, ast.Name) else None
+        bad = []
+        enc = 0
+        for x in ast.walk(lp):
+            if isinstance(x, ast.Call) and isinstance(x.func, ast.Attribute) \
+                    and isinstance(x.func.value, ast.Name) and \
+                    x.func.value.id == var and x.func.attr in REWRITERS:
+                bad.append(x)
+            if isinstance(x, ast.Assign) and any(
+                    isinstance(t, ast.Subscript) and
+                    isinstance(t.value, ast.Name) and t.value.id == var
+                    for t in x.targets):
+                bad.append(x)
+            if isinstance(x, ast.Call) and isinstance(x.func, ast.Name) and \
+                    x.func.id in ctx.func.params and any(
+                        isinstance(a, ast.Name) and a.id == var
+                        for a in x.args):
+                enc += 1
+        rep.evaluations += 1
+        rep.check(not bad and enc >= 1, 'E7', where,
+                  'a part is changed by the given encoder only',
+                  '_encode_parts rewrites the part itself (`%s`) instead of '
+                  'leaving the conversion to the encoder: the stored raw '
+                  'payload is replaced by text derived from it, the 7-bit '
+                  'output no longer decodes to the original text' % (
+                      ' '.join(ast.unparse(bad[0]).split())[:60]
+                      if bad else 'no encoder call'),
+                  loc=ctx.func.loc(bad[0] if bad else lp),
+                  reason='encoder(part) and header removal only')
